@@ -1687,15 +1687,25 @@ class ConcreteEngine:
     def int(self, name, lo=None, hi=None):
         nm = self._name(name)
         if nm not in self.inputs_in:
-            raise HarnessError('native replay: missing input %s' % nm)
+            self._missing(nm)
         return self.inputs_in[nm]
+
+    def _missing(self, nm):
+        if self.failed:
+            # replay of a recorded violation: the recording stops at the failed check, the run may go on
+            raise ReplayDone()
+        raise HarnessError('native replay: missing input %s' % nm)
 
     def bool(self, name):
         nm = self._name(name)
+        if nm not in self.inputs_in:
+            self._missing(nm)
         return bool(self.inputs_in[nm])
 
     def bytes(self, name, n, kind='bytes'):
         nm = self._name(name)
+        if n and '%s[0]' % nm not in self.inputs_in:
+            self._missing(nm)
         b = _bytes(self.inputs_in['%s[%d]' % (nm, i)] for i in range(n))
         if kind == 'bytearray':
             return _bytearray(b)
